@@ -12,6 +12,7 @@ mod encoder;
 mod codec;
 mod eqhash;
 mod replace;
+mod rope;
 mod rng;
 mod wildmap;
 
@@ -36,6 +37,8 @@ fn main() {
     "replay-tokens" => wildmap::replay_tokens(&args[2]),
     "search-wildmap" => wildmap::search(&args[2..]),
     "replay-wildmap" => wildmap::replay(&args[2]),
+    "search-rope" => rope::search(&args[2..]),
+    "replay-rope" => rope::replay(&args[2]),
     "search-replace" => replace::search(&args[2..]),
     "replay-replace" => replace::replay(&args[2]),
     _ => { eprintln!("usage: twin search-enc|search-lines|search-dec|search-replace <seed> <budget> | replay-* <witness>"); 2 }
